@@ -130,6 +130,9 @@ def _ops_text(ops, nm, out, ind):
                                                                     text(te, nm), tid, mode))
         elif k == "fresh":
             out.append("%s%s = fresh_var_name(%r) -> %s" % (pad, op[1], op[2], nm(op[1])))
+        elif k == "implicit":
+            out.append("%sassign_implicit_1(%s, unknown %s, %s = 0, guess=%s)" % (
+                pad, nm(op[1]), nm(op[2]), text(op[3], nm), text(op[4], nm)))
         elif k == "raise":
             out.append("%sraise_(%s, %r)" % (pad, op[1], op[2]))
         elif k == "switch":
@@ -151,8 +154,9 @@ ERRORS = {"ErrA": ErrA, "ErrB": ErrB, "ValueError": ValueError}
 
 class ScriptGen:
     def __init__(self, tape, max_ops=8, max_phases=3, max_depth=2, persistent_p=True,
-                 unique_sites=False, force=(), forbid=(), cfg=None):
+                 unique_sites=False, force=(), forbid=(), cfg=None, implicit=False):
         self.tape = tape
+        self.implicit = implicit      # implicit solves (no stock back end runs them: schedule checks only)
         self.F = Features(tape)
         for name in force:
             setattr(self.F, name, True)
@@ -545,7 +549,8 @@ class ScriptGen:
                      1.2 if (F.fail or F.switch or F.restart or F.raise_) else 0,  # 8 terminator
                      1.5 if F.arrays and self.arrs(D) else 0,   # 9 whole-array assign
                      1 if F.var_bounds else 0,             # 10 bound var
-                     1.0]                                  # 11 persistent update
+                     1.0,                                  # 11 persistent update
+                     1.5 if self.implicit else 0]          # 12 implicit solve
                 k = t.weighted(w, "opkind")
                 op = self.gen_op(k, D, depth)
                 if op is None:
@@ -569,6 +574,30 @@ class ScriptGen:
     def gen_op(self, k, D, depth):
         t = self.tape
         F = self.F
+        if k == 12:
+            # tgt <- solution for the unknown u of expr(u, ...) = 0, starting from guess; the unknown is a
+            # name of its own that may be spelled like a program variable (then the guess often mentions
+            # that variable, which the solve does read)
+            tgt = self.new_temp(D, "float")
+            if tgt is None:
+                return None
+            nums = [v for v in self.nums(D) if not v.startswith("$")]
+            if nums and t.chance(0.7, "unknown_like_var"):
+                unk = self.pick(nums, "unk")
+            else:
+                unk = "unk"
+            D2 = set(D) | {unk}
+            old = self.types.get(unk)
+            self.types.setdefault(unk, "float")
+            e = Bin("-", Bin("*", Var(unk), self.g_num(D2, 1, allow_calls=False)), self.g_num(D, 1, allow_calls=False))
+            if old is None:
+                del self.types[unk]
+            if unk in D and t.chance(0.7, "guess_is_var"):
+                guess = Var(unk)
+            else:
+                guess = self.g_num(D, 1, allow_calls=False)
+            D.add(tgt)
+            return ("implicit", tgt, unk, e, guess)
         if k == 0 or k == 11:
             typ = ["float", "int", "bool"][t.weighted([5, 2, 1.5], "atyp")]
             if k == 11:
@@ -981,6 +1010,10 @@ def _apply_one(cb, op, ap, phase_name):
         elif k == "yield":
             _, e, comp, te, tid, mode = op
             cb.yield_state(_rend(e, ap, mode), comp, te.pym(ap.nm), tid)
+        elif k == "implicit":
+            from pymbolic import var as _v
+            _, tgt, unk, e, guess = op
+            cb.assign_implicit_1(_v(ap.nm(tgt)), _v(ap.nm(unk)), e.pym(ap.nm), guess.pym(ap.nm))
         elif k == "fresh":
             _, h, prefix, use_var = op
             before = len(cb.statements)
